@@ -18,6 +18,17 @@ Oracles
              that was not sent; SAR sequences well-formed with START.sdu_length == total;
              information payload <= peer MPS; FCS (own CRC-16, poly x^16+x^15+x^2+1, LSB first,
              init 0) verifies over header+control+payload when FCS was negotiated.
+
+Extension families (case keys 'skew', 'lazy', 'bg', 'pre'; absent = the plain case above)
+  skew     : requests to PSMs without a server are pending on either device while the channel under judgement is
+             set up, so that its two ends get different CIDs; the refused requests must raise.
+  lazy     : the peer acknowledges cumulatively (plain RR S-frames to the sender are thinned out by a cyclic
+             pattern); delivery and the window / ReqSeq monitor as above, on what the sender really received.
+  bg       : a second channel between the same devices (either creator, Basic or ERTM, before or together with
+             the one under judgement) stays open and carries its own SDUs: set-up clause + delivery per direction.
+  pre      : history - earlier channels of the link, opened / used / closed (or failed because of mismatching
+             modes, optionally with the next set-up started the moment the failure is raised): set-up clause +
+             delivery on each; the channel under judgement then re-uses their CIDs.
 """
 
 from __future__ import annotations
@@ -43,8 +54,24 @@ RULE = (
     'retransmission timeout: 20-50 ms per HCI packet with a 30 ms timeout, or 0.7-1.2 s with the default 2 s); plus '
     'an exhaustively enumerated set-up grid mode x mode x {no FCS, FCS, no FCS + option unsupported}^2 x carrier x '
     '3 delay profiles (7 in the thorough tier) and mode x carrier with no server on the PSM. '
+    'Extension families (generated family "ext" + three enumerations run by every shard): (1) identifier skew - 0..3 requests '
+    'to PSMs without a server are pending on either device while the channel is set up, so its two ends get '
+    'different CIDs (0x40+a / 0x40+b; with one channel per link both ends always get 0x40) - enumerated over '
+    'carrier x mode pair (also mismatching) x 4 skews x FCS x delay profile; (2) a peer that acknowledges '
+    'cumulatively - of the RR S-frames (P=0, F=0) on their way to the sender a generated cyclic pattern is removed '
+    '(every 2nd, only when the window is full, only when polled, irregular), ReqSeq then advances by 2..63 per '
+    'frame, also across the 63->0 wrap and by exactly TxWindow - enumerated over TxWindow {1,2,3,5,8,63} x 4 policies x '
+    'writer with 133 I-frames; (3) a background channel (Basic or ERTM, own spec pair, created by either device, '
+    'before or at the same time as the channel under judgement - crossing requests) that stays open and carries '
+    'its own SDUs interleaved with the program, delivery judged per direction; (4) history - 1..3 earlier channels '
+    'of the same link (any mode pair, created by either device) opened, used, closed by either end, so the channel '
+    'under judgement re-uses their CIDs and starts again at TxSeq 0; earlier set-ups that fail (mismatching modes) '
+    'are followed by the next create_l2cap_channel() either after quiescence or the moment the failure is raised '
+    '(the latter also enumerated: failing pair {EB, BE} x created by either device x mode of the next channel x 5 '
+    'FCS states x 3 delay profiles). '
     'non-trivial = ERTM with an SDU of >=2 segments, or TxWindow smaller than the segments of an SDU, or '
-    'TxSeq wrap-around, or FCS on, or mismatching modes; distinct by (carrier, spec pair, delays, program).'
+    'TxSeq wrap-around, or FCS on, or mismatching modes, or any extension family; '
+    'distinct by (carrier, spec pair, delays, program, skew, acknowledgement pattern, background spec, history).'
 )
 ASSUMPTIONS = [
     'no frame loss is injected (the virtual link does not lose frames, Bumble\'s ERTM has no retransmission, the '
@@ -65,6 +92,16 @@ ASSUMPTIONS = [
     'ACL packet of the virtual controller; above 65529 Bumble cannot build the frame at all (no cap on the segment size)',
     'a side that asks for FCS always supports the FCS option; monitor time-outs stay at 12 s (above every '
     'generated round trip) so that max_retransmission can never legitimately close the channel',
+    'the cumulatively acknowledging peer is the Bumble peer plus a filter in front of the sender\'s host that removes '
+    'plain RR S-frames (P=0, F=0) of the channel under judgement; acknowledgements are cumulative, so the remaining '
+    'traffic is that of a conforming peer that acknowledges less often (the sender\'s retransmission timer polls '
+    'when nothing comes, the answer with F=1 always passes); I-frames are never removed, so this is not loss of '
+    'data; the window / ReqSeq monitor of the sender works on what the sender actually received',
+    'the wire monitor judges the channel under judgement only (frames from its Connection Request on, by its own '
+    'CIDs); background and history channels are judged by set-up outcome and delivery; how a channel is closed '
+    '(disconnect() of a history channel) is C09\'s subject: a close that does not finish is counted, not judged',
+    'requests to PSMs nobody listens on must be refused (same clause as the no-server grid); SDUs written on '
+    'history channels are delivered before the channel is closed (closing starts at quiescence)',
 ]
 SHRINK_KEYS = ('ops',)
 
@@ -79,6 +116,10 @@ MAX_MPS = 65525
 SIGNALLING_LIMIT = 60
 CLIENT, SERVER = 'c', 's'
 OTHER = {CLIENT: SERVER, SERVER: CLIENT}
+NODE = {CLIENT: 0, SERVER: 1}  # the client of the channel under judgement is always node 0
+BG_C, BG_S = 'C', 'S'  # ops: write on the background channel by node 0's / node 1's end
+BG_END = {BG_C: CLIENT, BG_S: SERVER}
+UNUSED_PSMS = (0x10F1, 0x10F3, 0x10F5, 0x10F7)  # nobody ever listens on these (servers get 0x1001, 0x1003, ..)
 
 
 # ---------------------------------------------------------------------------
@@ -176,26 +217,34 @@ def parse_options(data: bytes) -> dict:
 
 
 def negotiated(frames, psm: int):
-    """What was agreed on the signalling channel, from node 0's view (tx = client, rx = server).
+    """What was agreed on the signalling channel for the channel opened on `psm`, from node 0's view
+    (tx = client, rx = server).  Other channels of the same link (earlier ones that used the same identifiers,
+    a background channel, refused requests) are left out: a Configure Request counts when its destination CID is
+    the peer's end of this channel.
 
     Returns dict(cid={c,s}, adv={c: option values of the client's Configure Requests (last value sent per
-    option), s: ...}, n_req, last_result={c: result of the response to the client's last request, s: ...})."""
+    option), s: ...}, n_req, last_result={c: result of the response to the client's last request, s: ...},
+    start=position of the Connection Request)."""
     cid = {CLIENT: None, SERVER: None}
     pending: dict = {}
     adv = {CLIENT: {}, SERVER: {}}
     n_req = {CLIENT: 0, SERVER: 0}
     last_result = {CLIENT: None, SERVER: None}
-    for _pos, d, fcid, payload in frames:
+    start = None
+    for pos, d, fcid, payload in frames:
         if fcid != 0x0001:
             continue
         sender = CLIENT if d == 'tx' else SERVER
         for code, ident, data in parse_commands(payload):
             if code == 0x02 and len(data) >= 4 and sender == CLIENT and le16(data, 0) == psm:
                 cid[CLIENT] = le16(data, 2)
+                start = pos
             elif code == 0x03 and len(data) >= 8 and sender == SERVER:
-                if le16(data, 2) == cid[CLIENT] and le16(data, 4) == 0:
+                if cid[SERVER] is None and le16(data, 2) == cid[CLIENT] and le16(data, 4) == 0:
                     cid[SERVER] = le16(data, 0)
             elif code == 0x04 and len(data) >= 4:
+                if start is None or cid[OTHER[sender]] is None or le16(data, 0) != cid[OTHER[sender]]:
+                    continue
                 # a later request overrides the options it repeats (re-negotiation after "unacceptable
                 # parameters" repeats only the adjusted option; the others keep their last value)
                 n_req[sender] += 1
@@ -204,7 +253,17 @@ def negotiated(frames, psm: int):
             elif code == 0x05 and len(data) >= 6:
                 if pending.pop((OTHER[sender], ident), None):
                     last_result[OTHER[sender]] = le16(data, 4)
-    return {'cid': cid, 'adv': adv, 'n_req': n_req, 'last_result': last_result}
+    return {'cid': cid, 'adv': adv, 'n_req': n_req, 'last_result': last_result, 'start': start}
+
+
+def request_position(frames, psm: int):
+    """Position of the Connection Request for `psm` among the frames node 1 received."""
+    for pos, d, fcid, payload in frames:
+        if fcid == 0x0001 and d == 'rx':
+            for code, _ident, data in parse_commands(payload):
+                if code == 0x02 and len(data) >= 4 and le16(data, 0) == psm:
+                    return pos
+    return None
 
 
 def parse_ertm(cid: int, payload: bytes, fcs_on: bool):
@@ -263,11 +322,17 @@ def _site(exc) -> str:
 _BLOCK = 251
 
 
-def sdu_bytes(direction: str, index: int, size: int) -> bytes:
-    """Reference content of the index-th SDU written in a direction (position dependent, prime period)."""
-    salt = (index * 7 + (0 if direction == CLIENT else 101)) % _BLOCK
+_HEAD = {'c': 0xC0, 's': 0x50, 'C': 0xB0, 'S': 0xB5}
+_SALT = {'c': 0, 's': 101, 'C': 53, 'S': 197}
+
+
+def sdu_bytes(direction: str, index: int, size: int, tag: int = 0) -> bytes:
+    """Reference content of the index-th SDU written in a direction (position dependent, prime period).
+    direction: 'c'/'s' = written by the client / server end of a channel, 'C'/'S' = written on the background
+    channel by node 0's / node 1's end; tag > 0 = a channel of the history (opened and closed earlier)."""
+    salt = (index * 7 + _SALT[direction] + 29 * tag) % _BLOCK
     block = bytes((salt + 3 * k) % _BLOCK for k in range(_BLOCK))
-    head = bytes([0xC0 if direction == CLIENT else 0x50, index & 0xFF, (index >> 8) & 0xFF, size & 0xFF, (size >> 8) & 0xFF])
+    head = bytes([_HEAD[direction] ^ (tag & 0x0F), index & 0xFF, (index >> 8) & 0xFF, size & 0xFF, (size >> 8) & 0xFF])
     data = head + block * (size // _BLOCK + 1)
     return data[:size]
 
@@ -298,6 +363,21 @@ def delay_max(case) -> float:
     return (max(vals) if vals else 0) / 1000.0
 
 
+def delivery_verdict(want, got):
+    """None when the list of SDUs at the sink equals the list written, else (kind, detail)."""
+    if got == want:
+        return None
+    if len(got) < len(want) and got == want[: len(got)]:
+        return 'lost', (f'{len(want) - len(got)} of {len(want)} SDUs written were never delivered '
+                        f'(first missing: #{len(got)}, {len(want[len(got)])} bytes)')
+    i = next((k for k in range(min(len(got), len(want))) if got[k] != want[k]), min(len(got), len(want)))
+    if i >= len(want):
+        return 'extra', f'{len(got)} SDUs delivered, only {len(want)} written'
+    if got[i] in want:
+        return 'order_or_duplicate', f'SDU #{want.index(got[i])} delivered at position {i}'
+    return 'corrupt', f'SDU #{i}: {len(want[i])} bytes written, {len(got[i])} bytes delivered with different content'
+
+
 def exec_case(case) -> Collector:
     col = Collector()
     spec = {CLIENT: case[CLIENT], SERVER: case[SERVER]}
@@ -306,26 +386,156 @@ def exec_case(case) -> Collector:
     classic = case['carrier'] == 'classic'
     acl = int(case.get('acl') or 27)
     dmax = delay_max(case)
+    skew = [int(x) for x in (case.get('skew') or [0, 0])]
+    lazy = {side: [int(x) for x in ((case.get('lazy') or {}).get(side) or [])] for side in (CLIENT, SERVER)}
+    bg = case.get('bg') or None
+    pre = list(case.get('pre') or [])
     loop = vloop.new_loop()
     loop.max_iterations = 6_000_000
-    st_: dict = {'server_channels': []}
+    st_: dict = {'server_channels': [], 'lazy_cid': {}, 'lazy_dropped': {CLIENT: 0, SERVER: 0}}
     rx = {CLIENT: [], SERVER: []}  # SDUs received BY that side
     written = {CLIENT: [], SERVER: []}  # SDUs written BY that side
+
+    def lazy_filter(side):
+        """A peer that acknowledges cumulatively: of the RR S-frames (P=0, F=0) addressed to `side`'s end of the
+        channel under judgement, pattern[i] are removed before one is let through (cyclic).  Acknowledgements are
+        cumulative, so what is left is the traffic of a conforming peer that acknowledges less often; I-frames,
+        polls and final responses always pass."""
+        pattern = lazy[side]
+        state = {'left': pattern[0], 'idx': 0}
+
+        def f(direction, packet):
+            cid = st_['lazy_cid'].get(side)
+            if cid is None or direction != world.C2H or packet[0] != 0x02 or len(packet) < 11:
+                return packet
+            if (le16(packet, 1) >> 12) & 3 == 1:
+                return packet  # continuation fragment
+            n = le16(packet, 5)
+            if n not in (2, 4) or len(packet) != 9 + n or le16(packet, 7) != cid:
+                return packet
+            ctrl = le16(packet, 9)
+            if not ctrl & 1 or (ctrl >> 2) & 3 or ctrl & 0x10 or ctrl & 0x80:
+                return packet  # not a plain RR
+            if state['left'] > 0:
+                state['left'] -= 1
+                st_['lazy_dropped'][side] += 1
+                return None
+            state['idx'] = (state['idx'] + 1) % len(pattern)
+            state['left'] = pattern[state['idx']]
+            return packet
+
+        return f
 
     async def build():
         geometry = {'acl_data_packet_length': acl, 'le_acl_data_packet_length': acl}
         w = world.World(2, classic=classic, geometry=geometry,
                         delays=[list(case.get('dc') or []), list(case.get('ds') or [])])
+        for i, side in enumerate((CLIENT, SERVER)):
+            if lazy[side]:
+                w[i].tap.filters.append(lazy_filter(side))
         views = [HostView(w[0]), HostView(w[1])]
         for i, side in enumerate((CLIENT, SERVER)):
             if not spec[side].get('fcs_sup', True):
                 w[i].device.l2cap_channel_manager.extended_features.discard(FCS_OPTION)
         await w.power_on()
         if classic:
-            conn_c, _conn_s = await w.connect_classic(0, 1)
+            conn_c, conn_s = await w.connect_classic(0, 1)
         else:
-            conn_c, _conn_s = await w.connect_le(0, 1)
-        st_.update(w=w, views=views, conn=conn_c)
+            conn_c, conn_s = await w.connect_le(0, 1)
+        st_.update(w=w, views=views, conn=conn_c, conns={CLIENT: conn_c, SERVER: conn_s})
+
+    # ---- auxiliary channels (history, background) --------------------------------------------
+    def aux_record(desc, tag):
+        return {'desc': desc, 'tag': tag, 'by': desc.get('by') or CLIENT, 'spec': {CLIENT: desc[CLIENT], SERVER: desc[SERVER]},
+                'accepted': [], 'end': {}, 'exc': None,
+                'rx': {CLIENT: [], SERVER: []}, 'written': {CLIENT: [], SERVER: []}}
+
+    async def aux_open(rec):
+        """One more channel on the same link.  rec['spec'][CLIENT] belongs to node 0's end, [SERVER] to node 1's end;
+        rec['by'] names the end that calls create_l2cap_channel(), the other end hosts a server on a fresh PSM."""
+        w = st_['w']
+        by, acc = rec['by'], OTHER[rec['by']]
+
+        def on_channel(channel):
+            rec['accepted'].append(channel)
+            channel.sink = lambda sdu: rec['rx'][acc].append(bytes(sdu))
+
+        server = w[NODE[acc]].device.create_l2cap_server(spec=mkspec(rec['spec'][acc]), handler=on_channel)
+        rec['psm'] = server.psm
+        try:
+            ch = await st_['conns'][by].create_l2cap_channel(spec=mkspec(rec['spec'][by], psm=server.psm))
+        except asyncio.CancelledError:
+            raise
+        except Exception as e:  # noqa: BLE001 - judged against the set-up clause
+            rec['exc'] = e
+        else:
+            ch.sink = lambda sdu: rec['rx'][by].append(bytes(sdu))
+            rec['end'][by] = ch
+
+    def aux_setup(rec, what) -> bool:
+        """Opens an auxiliary channel and judges the set-up clause on it. True = both ends open."""
+        pair = rec['spec'][rec['by']]['mode'] + rec['spec'][OTHER[rec['by']]]['mode']
+        try:
+            loop.complete(aux_open(rec), horizon=vloop.HORIZON + 2000 * dmax)
+        except (vloop.Stalled, vloop.HorizonExceeded) as e:
+            col.fail(f'aux_setup/hang/{type(e).__name__}/{pair}', f'{what}: create_l2cap_channel() neither returned nor raised; modes {pair}')
+            return False
+        except vloop.BudgetExceeded:
+            col.labels.add('iteration_budget_hit')
+            return False
+        loop.run_for(60.0 + 40 * dmax)
+        return aux_judge(rec, what)
+
+    def aux_judge(rec, what) -> bool:
+        pair = rec['spec'][rec['by']]['mode'] + rec['spec'][OTHER[rec['by']]]['mode']
+        by, acc = rec['by'], OTHER[rec['by']]
+        a_state = rec['accepted'][0].state.name if rec['accepted'] else 'NONE'
+        if by in rec['end']:
+            ch = rec['end'][by]
+            if ch.state.name != 'OPEN':
+                col.fail(f'aux_setup/returned_not_open/{ch.state.name}', f'{what}: create_l2cap_channel() returned a channel in state {ch.state.name}')
+                return False
+            if a_state != 'OPEN':
+                col.fail(f'aux_setup/asymmetric/client_OPEN/server_{a_state}/{pair}', f'{what}: creating end OPEN but accepting end is {a_state} at quiescence')
+                return False
+            if pair[0] != pair[1] or ch.mode != rec['accepted'][0].mode:
+                col.fail(f'aux_setup/open_with_different_modes/{pair}', f'{what}: both ends OPEN although the specs ask for modes {pair}')
+                return False
+            rec['end'][acc] = rec['accepted'][0]
+            rec['cids'] = {x: rec['end'][x].source_cid for x in (CLIENT, SERVER)}
+            return True
+        if rec['accepted'] and a_state != 'CLOSED':
+            col.fail(f'aux_setup/asymmetric/client_raised/server_{a_state}/{pair}',
+                     f'{what}: create_l2cap_channel() raised {rec["exc"]!r} but the accepting end is {a_state} at quiescence')
+        return False
+
+    def aux_write(rec, side, size) -> bool:
+        data = sdu_bytes(side if rec['tag'] else (BG_C if side == CLIENT else BG_S), len(rec['written'][side]), size, rec['tag'])
+        rec['written'][side].append(data)
+        try:
+            rec['end'][side].write(data)
+        except Exception as e:  # noqa: BLE001 - judged against the property
+            rec['written'][side].pop()
+            rec['write_exc'] = (side, size, e)
+            return False
+        return True
+
+    def aux_frames(rec) -> int:
+        mode = rec['spec'][CLIENT]['mode']
+        return sum(segments(len(d), int(rec['spec'][OTHER[side]]['mps'])) if mode == E else 1 + len(d) // acl
+                   for side in (CLIENT, SERVER) for d in rec['written'][side])
+
+    def aux_delivery(rec, prefix, what) -> None:
+        mode = rec['spec'][CLIENT]['mode']
+        if 'write_exc' in rec:
+            side, size, exc = rec['write_exc']
+            col.fail(f'{prefix}write_raises/{mode}/{type(exc).__name__}/{_site(exc)}',
+                     f'{what}: write() of a {size}-byte SDU (receiver MTU {rec["spec"][OTHER[side]]["mtu"]}) raised {exc!r}')
+        for side in (CLIENT, SERVER):
+            v = delivery_verdict(rec['written'][side], rec['rx'][OTHER[side]])
+            if v is not None:
+                col.fail(f'{prefix}delivery/{v[0]}/{"ertm" if mode == E else "basic"}',
+                         f'{what}, node {NODE[side]} -> node {NODE[OTHER[side]]}: {v[1]}')
 
     def server_sink(sdu):
         rx[SERVER].append(bytes(sdu))
@@ -342,6 +552,7 @@ def exec_case(case) -> Collector:
     def on_server_channel(channel):
         st_['server_channels'].append(channel)
         channel.sink = server_sink
+        st_['lazy_cid'].setdefault(SERVER, channel.source_cid)
 
     def do_write(side, size) -> bool:
         ch = st_['client'] if side == CLIENT else st_['server_channels'][0]
@@ -376,11 +587,24 @@ def exec_case(case) -> Collector:
         async def create():
             return await st_['conn'].create_l2cap_channel(spec=mkspec(spec[CLIENT], psm=st_['psm']))
 
+        async def refused(side, k):
+            # a request nobody will accept: while it is pending it occupies one channel identifier on `side`
+            return await st_['conns'][side].create_l2cap_channel(spec=mkspec(spec[side], psm=UNUSED_PSMS[k]))
+
+        # requests to PSMs without a server, still pending when the request under judgement is issued: the
+        # two ends of the channel get different identifiers (no other way to get there with one channel per link)
+        decoys = [loop.create_task(refused(side, k)) for side, n in ((CLIENT, skew[0]), (SERVER, skew[1])) for k in range(n)]
+        st_['decoys'] = decoys
+        if 'bg_pending' in st_:
+            # the background channel is set up at the same time (crossing requests when node 1 creates it)
+            decoys = decoys + [loop.create_task(aux_open(st_['bg_pending']))]
         task = loop.create_task(create())
         await asyncio.wait({task, abort}, return_when=asyncio.FIRST_COMPLETED)
         if not task.done():
             st_['livelock'] = True
             task.cancel()
+            for t in decoys:
+                t.cancel()
             return
         if task.cancelled():
             st_['client_exc'] = asyncio.CancelledError()
@@ -389,6 +613,7 @@ def exec_case(case) -> Collector:
         else:
             st_['client'] = task.result()
             st_['client'].sink = lambda sdu: rx[CLIENT].append(bytes(sdu))
+            st_['lazy_cid'][CLIENT] = st_['client'].source_cid
             if case.get('early') and st_['client'].state == l2cap.ClassicChannel.State.OPEN:
                 # the client writes as soon as create_l2cap_channel() returns (the server end may still be
                 # waiting for the last configuration frame, which is ahead of the data on the same link)
@@ -396,6 +621,8 @@ def exec_case(case) -> Collector:
                 while k < len(ops) and ops[k][0] == CLIENT and do_write(CLIENT, int(ops[k][1])):
                     k += 1
                 st_['next_op'] = k
+        if decoys:
+            await asyncio.wait(set(decoys))
 
     async def drive():
         for op in ops[st_.get('next_op', 0):]:
@@ -403,6 +630,10 @@ def exec_case(case) -> Collector:
                 return
             if op[0] == 't':
                 await asyncio.sleep(int(op[1]) / 1000.0)
+            elif op[0] in BG_END:
+                rec = st_.get('bg')
+                if rec is not None and 'write_exc' not in rec:
+                    aux_write(rec, BG_END[op[0]], int(op[1]))
             elif not do_write(op[0], int(op[1])):
                 return
 
@@ -411,6 +642,72 @@ def exec_case(case) -> Collector:
             loop.complete(build(), horizon=100_000.0)
         except (vloop.Stalled, vloop.HorizonExceeded, vloop.BudgetExceeded) as e:
             raise HarnessError(f'C08 harness: devices did not power on / connect ({type(e).__name__})') from e
+
+        # ---- history: channels opened, used and closed before the one under judgement --------
+        for j, desc in enumerate(pre):
+            rec = aux_record(desc, j + 1)
+            what = f'earlier channel #{j + 1} of the link'
+            if desc.get('rush'):
+                # no quiescence: the next create_l2cap_channel() is called the moment this one has raised (the
+                # closing handshake of the failed channel is still going on); judged after the last set-up
+                try:
+                    loop.complete(aux_open(rec), horizon=vloop.HORIZON + 2000 * dmax)
+                except (vloop.Stalled, vloop.HorizonExceeded) as e:
+                    col.fail(f'aux_setup/hang/{type(e).__name__}/{rec["spec"][rec["by"]]["mode"]}{rec["spec"][OTHER[rec["by"]]]["mode"]}',
+                             f'{what}: create_l2cap_channel() neither returned nor raised')
+                    return col
+                except vloop.BudgetExceeded:
+                    col.labels.add('iteration_budget_hit')
+                    return col
+                if rec['by'] not in rec['end']:
+                    st_.setdefault('postponed', []).append((rec, what))
+                    col.labels.add('history:next_setup_right_after_failure')
+                    continue
+                loop.run_for(60.0 + 40 * dmax)
+                opened = aux_judge(rec, what)
+            else:
+                opened = aux_setup(rec, what)
+            if not opened:
+                if col.fails or 'iteration_budget_hit' in col.labels:
+                    return col
+                col.labels.add('history:setup_closed')
+                continue
+            async def program(rec=rec, desc=desc):
+                for op in desc.get('ops') or []:
+                    if op[0] in (CLIENT, SERVER) and not aux_write(rec, op[0], int(op[1])):
+                        break
+
+            loop.complete(program())
+            loop.run_for(600.0 + aux_frames(rec) * 14 * (dmax + 0.001) * 4)
+            if loop.budget_hit:
+                col.labels.add('iteration_budget_hit')
+                return col
+            aux_delivery(rec, 'history/', what)
+            if col.fails:
+                return col
+            try:
+                loop.complete(rec['end'][desc.get('close') or CLIENT].disconnect(), horizon=vloop.HORIZON + 2000 * dmax)
+            except (vloop.Stalled, vloop.HorizonExceeded, vloop.BudgetExceeded):
+                col.labels.add('history:disconnect_did_not_finish')  # closing a channel is C09's subject
+            except Exception:  # noqa: BLE001 - idem
+                col.labels.add('history:disconnect_raised')
+            loop.run_for(60.0 + 40 * dmax)
+            if all(rec['end'][x].state.name == 'CLOSED' for x in (CLIENT, SERVER)):
+                col.labels.add('history:opened_used_closed')
+                st_.setdefault('old_cids', []).append(rec['cids'])
+
+        # ---- background channel: stays open, carries its own traffic during the program --------
+        if bg and bg.get('with_main'):
+            st_['bg_pending'] = aux_record(bg, 0)
+        elif bg:
+            rec = aux_record(bg, 0)
+            if aux_setup(rec, 'background channel'):
+                st_['bg'] = rec
+                col.labels.add('bg:open')
+            elif col.fails or 'iteration_budget_hit' in col.labels:
+                return col
+            else:
+                col.labels.add('bg:closed')
 
         # ---- set-up ----------------------------------------------------------------------
         outcome = 'done'
@@ -438,6 +735,10 @@ def exec_case(case) -> Collector:
         if outcome == 'budget':
             col.labels.add('iteration_budget_hit')
             return col
+        if outcome != 'done' and ('client' in st_ or 'client_exc' in st_):
+            col.fail(f'aux_setup/hang/{outcome}', 'the channel under judgement is set up, but a request issued together with it (to a PSM '
+                     f'without a server, or the background channel) neither returned nor raised ({outcome})')
+            return col
         if outcome != 'done':
             col.fail(f'setup/hang/{outcome}/{pair}', f'create_l2cap_channel() neither returned nor raised ({outcome}); modes {pair}, FCS {fcsk}')
             return col
@@ -445,9 +746,26 @@ def exec_case(case) -> Collector:
         client = st_.get('client')
         servers = st_['server_channels']
         s_state = servers[0].state.name if servers else 'NONE'
+        for t in st_.get('decoys') or []:
+            if t.done() and not t.cancelled() and t.exception() is None:
+                col.fail('setup/open_without_server', 'create_l2cap_channel() returned although nobody listens on the PSM')
+                return col
         if client is not None and case.get('no_server'):
             col.fail('setup/open_without_server', 'create_l2cap_channel() returned although nobody listens on the PSM')
             return col
+        for rec, what in st_.get('postponed') or []:
+            aux_judge(rec, what + ' (the next set-up started the moment this one had failed)')
+            if col.fails:
+                return col
+            col.labels.add('history:setup_closed')
+        if 'bg_pending' in st_:
+            if aux_judge(st_['bg_pending'], 'background channel (set up together with the channel under judgement)'):
+                st_['bg'] = st_['bg_pending']
+                col.labels.update(('bg:open', 'bg:opened_with_main'))
+            elif col.fails:
+                return col
+            else:
+                col.labels.add('bg:closed')
         if client is not None:
             c_state = client.state.name
             if c_state != 'OPEN':
@@ -472,7 +790,7 @@ def exec_case(case) -> Collector:
                 )
                 return col
             for ch in st_['w'][0].device.l2cap_channel_manager.channels.get(st_['conn'].handle, {}).values():
-                if isinstance(ch, l2cap.ClassicChannel) and ch.state == ch.State.OPEN:
+                if isinstance(ch, l2cap.ClassicChannel) and ch.state == ch.State.OPEN and ch is not st_.get('bg', {}).get('end', {}).get(CLIENT):
                     col.fail(f'setup/asymmetric/client_raised_but_open/{pair}', 'create raised but the client keeps an OPEN channel')
                     return col
             col.labels.add('setup:closed')
@@ -497,7 +815,13 @@ def exec_case(case) -> Collector:
                 n = segments(len(data), int(spec[OTHER[side]]['mps'])) if mode == E else 1
                 total_frames += n
                 total_frags += n + (len(data) + 12 * n) // acl
+        if 'bg' in st_:
+            total_frames += aux_frames(st_['bg'])
+            total_frags += aux_frames(st_['bg']) * 2
         bound = 600.0 + (total_frames * 12 + total_frags) * (dmax + 0.001) * 4
+        if lazy[CLIENT] or lazy[SERVER]:
+            # every window may have to wait for the sender's retransmission timer (<= 2 s) and one poll round trip
+            bound += total_frames * (2.0 + 8 * dmax)
         loop.run_for(bound)
         if loop.budget_hit:
             col.labels.add('iteration_budget_hit')
@@ -513,31 +837,28 @@ def exec_case(case) -> Collector:
             )
         # delivery, per direction
         for side in (CLIENT, SERVER):
-            want, got = written[side], rx[OTHER[side]]
-            if got == want:
+            v = delivery_verdict(written[side], rx[OTHER[side]])
+            if v is None:
                 continue
-            if len(got) < len(want) and got == want[: len(got)]:
-                kind = 'lost'
-                detail = f'{len(want) - len(got)} of {len(want)} SDUs written were never delivered (first missing: #{len(got)}, {len(want[len(got)])} bytes)'
-                if analysis.get('rr_poll', {}).get(side):
-                    kind = 'lost/after_retransmission_timer'
-                    detail += '; the sender\'s retransmission timer had fired (it sent an RR S-frame on its own)'
-            else:
-                i = next((k for k in range(min(len(got), len(want))) if got[k] != want[k]), min(len(got), len(want)))
-                if i >= len(want):
-                    kind = 'extra'
-                    detail = f'{len(got)} SDUs delivered, only {len(want)} written'
-                elif got[i] in want:
-                    kind = 'order_or_duplicate'
-                    detail = f'SDU #{want.index(got[i])} delivered at position {i}'
-                else:
-                    kind = 'corrupt'
-                    detail = f'SDU #{i}: {len(want[i])} bytes written, {len(got[i])} bytes delivered with different content'
+            kind, detail = v
+            if kind == 'lost' and analysis.get('rr_poll', {}).get(side):
+                kind = 'lost/after_retransmission_timer'
+                detail += '; the sender\'s retransmission timer had fired (it sent an RR S-frame on its own)'
             errs = '; '.join(sorted({repr(e.get('exception')) for e in col.loop_errors}))[:200]
             col.fail(
                 f'delivery/{kind}/{"ertm" if mode == E else "basic"}',
                 f'{"client" if side == CLIENT else "server"} -> peer: {detail}' + (f' [loop errors: {errs}]' if errs else ''),
             )
+        if 'bg' in st_:
+            rec = st_['bg']
+            aux_delivery(rec, 'background/', 'background channel (open during the whole program)')
+            if any(rec['written'][x] for x in (CLIENT, SERVER)):
+                col.labels.add('bg_traffic')
+            if all(rec['end'][x].state.name == 'OPEN' for x in (CLIENT, SERVER)):
+                col.labels.add('bg:still_open')
+        for side in (CLIENT, SERVER):
+            if st_['lazy_dropped'][side]:
+                col.labels.add('lazy_ack')
         return col
     finally:
         loop.shutdown()
@@ -552,6 +873,14 @@ def analyse_wire(col: Collector, st_, spec, mode) -> dict:
     if neg is None or neg['cid'][CLIENT] is None or neg['cid'][SERVER] is None:
         raise HarnessError('C08 harness: channel OPEN but no Connection Request/Response found on the wire')
     cid, adv = neg['cid'], neg['adv']
+    # frames older than the Connection Request belong to earlier channels that may have used the same identifiers
+    start = [neg['start'], request_position(frames[1], st_['psm'])]
+    if start[1] is None:
+        raise HarnessError('C08 harness: channel OPEN but node 1 never received the Connection Request')
+    if cid[CLIENT] != cid[SERVER]:
+        col.labels.add('cid_asymmetric')
+    if any(cid[x] == old[x] for old in st_.get('old_cids') or [] for x in (CLIENT, SERVER)):
+        col.labels.add('cid_reused')
     if any(neg['last_result'][x] != 0 for x in (CLIENT, SERVER)):
         col.fail('wire/open_without_accepted_configuration', f'both ends OPEN but the last Configure Requests were answered {neg["last_result"]}')
         return out
@@ -581,7 +910,9 @@ def analyse_wire(col: Collector, st_, spec, mode) -> dict:
         sar_total = None  # (announced, accumulated) while inside a segmented SDU
         polled = False
         max_unacked = 0
-        for _pos, d, fcid, payload in frames[i]:
+        for pos, d, fcid, payload in frames[i]:
+            if pos < start[i]:
+                continue
             if d == 'rx':
                 if fcid != cid[x]:
                     continue
@@ -595,6 +926,12 @@ def analyse_wire(col: Collector, st_, spec, mode) -> dict:
                         f'{who} received ReqSeq={f["req_seq"]} after sending {n_sent} I-frames of which {acked} were acknowledged',
                     )
                     return out
+                if adv_ >= 2:
+                    col.labels.add('cumulative_ack')
+                    if adv_ == window:
+                        col.labels.add('cumulative_ack_of_whole_window')
+                    if acked % 64 + adv_ > 64:
+                        col.labels.add('cumulative_ack_across_wrap')
                 acked += adv_
                 if f['kind'] == 'I':
                     n_rcvd += 1
@@ -688,9 +1025,26 @@ def classify(case):
     if any(not spec[x].get('fcs_sup', True) for x in spec):
         labels.add('fcs_option_unsupported')
     writers = set()
+    if any(case.get('skew') or []):
+        labels.add('ext:skew')
+        nontrivial = True
+    if any((case.get('lazy') or {}).values()):
+        labels.add('ext:lazy')
+        nontrivial = True
+    if case.get('bg'):
+        labels.add('ext:bg')
+        labels.add(f'bg:mode:{case["bg"][CLIENT]["mode"]}')
+        nontrivial = True
+        if case['bg'][CLIENT]['mode'] == E and pair == 'EE':
+            labels.add('two_ertm_channels')
+    if case.get('pre'):
+        labels.add('ext:history')
+        nontrivial = True
     for op in case.get('ops') or []:
         if op[0] == 't':
             labels.add('pause')
+            continue
+        if op[0] in BG_END:
             continue
         writers.add(op[0])
         if pair == 'EE':
@@ -740,7 +1094,8 @@ def run_case(ctx, case, record=True) -> None:
     if 'txseq_wrapped' in labels:
         nontrivial = True
     ctx.case(('c08', case), nontrivial, labels,
-             sample={k: case.get(k) for k in ('carrier', 'acl', CLIENT, SERVER, 'dc', 'ds', 'echo', 'early')} | {'ops': (case.get('ops') or [])[:8]})
+             sample={k: case.get(k) for k in ('carrier', 'acl', CLIENT, SERVER, 'dc', 'ds', 'echo', 'early')}
+             | {k: case[k] for k in ('skew', 'lazy', 'bg', 'pre') if case.get(k)} | {'ops': (case.get('ops') or [])[:8]})
 
 
 # ---------------------------------------------------------------------------
@@ -886,6 +1241,209 @@ def grid_cases(thorough=False):
 
 
 # ---------------------------------------------------------------------------
+# extension families: identifier skew, lazily acknowledging peer, background channel, history
+# ---------------------------------------------------------------------------
+SKEWS = ([1, 0], [0, 1], [2, 1], [1, 3], [3, 0], [0, 2])
+
+
+def aux_sizes(draw, receiver: dict, mode: str, n: int, cap: int = 3000):
+    """n SDU sizes for an auxiliary channel: unsegmented, k x MPS +-1, more segments than the window."""
+    limit = min(max_sdu(receiver, mode), cap)
+    mps = int(receiver['mps']) if mode == E else 48
+    out = []
+    for _ in range(n):
+        kind = draw(st.sampled_from(['small', 'small', 'seg', 'seg', 'win']))
+        if kind == 'small':
+            size = draw(st.one_of(st.integers(0, min(mps, 40)), st.sampled_from([mps - 1, mps])))
+        elif kind == 'seg':
+            size = draw(st.sampled_from([1, 2, 2, 3, 5, 8])) * mps + draw(st.sampled_from([-1, 0, 0, 1, 9]))
+        else:
+            size = (int(receiver['win']) + draw(st.integers(1, 4))) * mps + draw(st.sampled_from([-1, 0, 1]))
+        out.append(max(0, min(size, limit)))
+    return out
+
+
+@st.composite
+def aux_spec_pair(draw, pair):
+    out = {}
+    for side, mode in ((CLIENT, pair[0]), (SERVER, pair[1])):
+        sp = draw(spec_strategy(mode))
+        sp['mps'] = min(int(sp['mps']), 1010)
+        out[side] = sp
+    return out
+
+
+@st.composite
+def ext_strategy(draw):
+    feature = draw(st.sampled_from(['skew', 'lazy', 'lazy', 'bg', 'bg', 'bg', 'history', 'history', 'mix', 'mix']))
+    with_ = {
+        'skew': feature == 'skew' or (feature == 'mix' and draw(st.booleans())) or draw(st.integers(0, 5)) == 0,
+        'lazy': feature == 'lazy' or (feature == 'mix' and draw(st.booleans())),
+        'bg': feature == 'bg' or (feature == 'mix' and draw(st.booleans())),
+        'history': feature == 'history' or (feature == 'mix' and draw(st.booleans())),
+    }
+    if with_['lazy']:
+        pair = 'EE'
+    else:
+        pair = draw(st.sampled_from(['EE'] * 7 + ['BB'] * 3 + ['EB', 'BE']))
+    spec = {CLIENT: draw(spec_strategy(pair[0])), SERVER: draw(spec_strategy(pair[1]))}
+    for side in spec:
+        spec[side]['mps'] = min(int(spec[side]['mps']), 1010)
+    acl = draw(st.sampled_from([27, 27, 251, 1021]))
+    mode = pair[0]
+    dc = draw(st.lists(st.sampled_from([0, 0, 0, 1, 7, 50]), max_size=4))
+    ds = draw(st.lists(st.sampled_from([0, 0, 0, 1, 7, 50]), max_size=4))
+    case = {'kind': 'ext', 'carrier': draw(st.sampled_from(['classic', 'le'])), 'acl': acl,
+            CLIENT: spec[CLIENT], SERVER: spec[SERVER], 'dc': dc, 'ds': ds, 'echo': 0, 'early': False, 'ops': []}
+    if with_['skew']:
+        case['skew'] = list(draw(st.sampled_from(SKEWS)))
+    if with_['history']:
+        case['pre'] = []
+        for _ in range(draw(st.sampled_from([1, 1, 2, 3]))):
+            ppair = draw(st.sampled_from(['EE', 'EE', 'BB', 'BB', 'EE', 'BB', 'EB', 'BE']))
+            d = draw(aux_spec_pair(ppair))
+            for side in (CLIENT, SERVER):
+                d[side]['fcs'] = bool(d[side]['fcs'] and spec[side].get('fcs_sup', True))
+            d['by'] = draw(st.sampled_from([CLIENT, SERVER]))
+            d['close'] = draw(st.sampled_from([CLIENT, SERVER]))
+            d['ops'] = []
+            if ppair[0] != ppair[1]:
+                d['rush'] = draw(st.sampled_from([True, True, False]))
+            if ppair[0] == ppair[1]:
+                for _ in range(draw(st.integers(0, 3))):
+                    wside = draw(st.sampled_from([CLIENT, SERVER]))
+                    d['ops'].append([wside, aux_sizes(draw, d[OTHER[wside]], ppair[0], 1)[0]])
+            case['pre'].append(d)
+    if pair[0] != pair[1]:
+        return case
+    ops: list = []
+    if with_['lazy']:
+        # the writer's peer acknowledges cumulatively; programs keep more I-frames queued than the window holds
+        writer = draw(st.sampled_from([CLIENT, SERVER]))
+        r = spec[OTHER[writer]]
+        r['win'] = draw(st.one_of(st.sampled_from([1, 2, 3, 4, 8, 16, 62, 63]), st.integers(1, 63)))
+        r['mps'] = draw(st.sampled_from([23, 30, 48, 100]))
+        r['mtu'] = max(int(r['mtu']), 150 * r['mps'])
+        win, mps = int(r['win']), int(r['mps'])
+        shape = draw(st.sampled_from(['one_sdu', 'many', 'several']))
+        if shape == 'one_sdu':
+            ops.append([writer, draw(st.integers(win + 1, 140)) * mps + draw(st.sampled_from([-1, 0, 1]))])
+        elif shape == 'many':
+            for _ in range(draw(st.integers(max(win + 1, 20), 140))):
+                ops.append([writer, draw(st.integers(0, mps))])
+        else:
+            for _ in range(draw(st.integers(2, 4))):
+                ops.append([writer, (win + draw(st.integers(1, 9))) * mps + draw(st.sampled_from([-1, 0, 1]))])
+        for _ in range(draw(st.integers(0, 3))):
+            # traffic the other way: acknowledgements ride on I-frames; pauses let the timers run
+            what = draw(st.sampled_from([OTHER[writer], OTHER[writer], 't']))
+            op = ['t', draw(st.sampled_from([1, 100, 3000]))] if what == 't' else \
+                [what, aux_sizes(draw, spec[writer], E, 1, cap=2000)[0]]
+            ops.insert(draw(st.integers(0, len(ops))), op)
+        patterns = [[1], [2], [max(win - 1, 1)], [win], [win + 3], [70], [0, 2, 1]]
+        case['lazy'] = {writer: draw(st.one_of(st.sampled_from(patterns), st.lists(st.integers(0, win + 2), min_size=1, max_size=4)))}
+        if sum(case['lazy'][writer]) == 0:
+            case['lazy'][writer] = [1]
+        if draw(st.integers(0, 2)) == 0:
+            case['lazy'][OTHER[writer]] = draw(st.sampled_from([[1], [3], [0, 5]]))
+    else:
+        for _ in range(draw(st.integers(1, 6))):
+            what = draw(st.sampled_from([CLIENT, CLIENT, SERVER, SERVER, 't']))
+            if what == 't':
+                ops.append(['t', draw(st.sampled_from([0, 1, 10, 100, 3000]))])
+            else:
+                ops.append([what, aux_sizes(draw, spec[OTHER[what]], mode, 1, cap=8000)[0]])
+    if with_['bg']:
+        bmode = draw(st.sampled_from([E, E, B]))
+        b = draw(aux_spec_pair(bmode + bmode))
+        for side in (CLIENT, SERVER):
+            b[side]['fcs'] = bool(b[side]['fcs'] and spec[side].get('fcs_sup', True))
+        b['by'] = draw(st.sampled_from([CLIENT, SERVER]))
+        b['with_main'] = draw(st.booleans())
+        case['bg'] = b
+        for _ in range(draw(st.integers(1, 6))):
+            wside = draw(st.sampled_from([CLIENT, SERVER]))
+            ops.insert(draw(st.integers(0, len(ops))),
+                       [BG_C if wside == CLIENT else BG_S, aux_sizes(draw, b[OTHER[wside]], bmode, 1)[0]])
+    if draw(st.integers(0, 7)) == 0 and any(o[0] == CLIENT for o in ops):
+        case['echo'] = max(1, aux_sizes(draw, spec[CLIENT], mode, 1)[0])
+    case['ops'] = ops
+    case['early'] = bool(ops) and ops[0][0] == CLIENT and draw(st.integers(0, 3)) == 0
+    return case
+
+
+def skew_cases(quick: bool):
+    """Identifier skew, enumerated: the two ends of the channel under judgement get different channel identifiers
+    (requests that will be refused are pending on either side while it is set up)."""
+    profiles = [[[], []], [[0, 7], []], [[], [3, 0, 50]]]
+    out = []
+    n = 0
+    for carrier in ('classic', 'le'):
+        for pair in ('EE', 'BB', 'EB', 'BE'):
+            for skew in SKEWS[:4]:
+                for fc in (False, True):
+                    n += 1
+                    for k, (dc, ds) in enumerate(profiles):
+                        if (quick or pair[0] != pair[1]) and k != n % 3:
+                            continue
+                        c = {'mode': pair[0], 'mtu': 672, 'mps': 40, 'win': 3, 'fcs': fc, 'fcs_sup': True, 'maxr': 1, 'rto': 2.0}
+                        s = {'mode': pair[1], 'mtu': 512, 'mps': 32, 'win': 2, 'fcs': False, 'fcs_sup': True, 'maxr': 1, 'rto': 2.0}
+                        ops = [[CLIENT, 150], [SERVER, 130], [CLIENT, 7], [SERVER, 0]] if pair[0] == pair[1] else []
+                        out.append({'kind': 'skewgrid', 'carrier': carrier, 'acl': 27, CLIENT: c, SERVER: s, 'skew': list(skew),
+                                    'dc': list(dc), 'ds': list(ds), 'echo': 0, 'early': bool(fc), 'ops': ops})
+    return out
+
+
+def rush_cases(quick: bool):
+    """Set-up right after a failed set-up, enumerated: an earlier channel with mismatching modes (created by either
+    device) fails; the moment its create_l2cap_channel() raises, node 0 sets up the channel under judgement while the
+    closing handshake of the failed one is still on the link.  x mode of the new channel x FCS states x delays."""
+    fcs_pairs = (('-', '-'), ('F', '-'), ('-', 'F'), ('u', 'F'), ('F', 'u'))
+    flag = {'-': (False, True), 'F': (True, True), 'u': (False, False)}
+    profiles = [[[], []], [[7], [7]], [[1], [50]]]
+    out = []
+    n = 0
+    for ppair in ('EB', 'BE'):
+        for by in (CLIENT, SERVER):
+            for mode in (E, B):
+                for fc, fs in fcs_pairs:
+                    n += 1
+                    for k, (dc, ds) in enumerate(profiles):
+                        if quick and k != n % 3:
+                            continue
+                        c = {'mode': mode, 'mtu': 672, 'mps': 40, 'win': 3, 'fcs': flag[fc][0], 'fcs_sup': flag[fc][1], 'maxr': 1, 'rto': 2.0}
+                        s = {'mode': mode, 'mtu': 512, 'mps': 32, 'win': 2, 'fcs': flag[fs][0], 'fcs_sup': flag[fs][1], 'maxr': 1, 'rto': 2.0}
+                        pc = {'mode': ppair[0], 'mtu': 672, 'mps': 40, 'win': 3, 'fcs': False, 'fcs_sup': True, 'maxr': 1, 'rto': 2.0}
+                        ps = dict(pc, mode=ppair[1])
+                        out.append({'kind': 'rushgrid', 'carrier': 'classic' if n % 2 else 'le', 'acl': 27, CLIENT: c, SERVER: s,
+                                    'pre': [{CLIENT: pc, SERVER: ps, 'by': by, 'close': CLIENT, 'ops': [], 'rush': True}],
+                                    'dc': list(dc), 'ds': list(ds), 'echo': 0, 'early': False,
+                                    'ops': [[CLIENT, 90], [SERVER, 70], [CLIENT, 5]]})
+    return out
+
+
+def lazy_cases(quick: bool):
+    """Cumulative acknowledgements, enumerated: TxWindow x acknowledgement policy of the peer x writing side; each
+    program sends 133 I-frames one way (sequence numbers wrap twice) with some traffic the other way."""
+    out = []
+    n = 0
+    for win in (1, 2, 3, 5, 8, 63):
+        for name, pattern in (('every_2nd', [1]), ('when_window_full', [max(win - 1, 1)]), ('on_poll_only', [1000]), ('irregular', [0, 2, 1])):
+            for writer in (CLIENT, SERVER):
+                n += 1
+                if quick and n % 2:
+                    continue
+                sp = {x: {'mode': E, 'mtu': 4000, 'mps': 23, 'win': win, 'fcs': bool(n % 3 == 0), 'fcs_sup': True, 'maxr': 1, 'rto': 2.0}
+                      for x in (CLIENT, SERVER)}
+                o = OTHER[writer]
+                ops = [[writer, 130 * 23 - 5], [o, 10], ['t', 3000], [writer, 23], [o, 60], [writer, 24]]
+                out.append({'kind': 'lazygrid', 'carrier': 'classic' if n % 4 < 2 else 'le', 'acl': 27, CLIENT: sp[CLIENT], SERVER: sp[SERVER],
+                            'lazy': {writer: list(pattern)}, 'policy': name, 'dc': [], 'ds': [7] if n % 5 == 0 else [], 'echo': 0,
+                            'early': False, 'ops': ops})
+    return out
+
+
+# ---------------------------------------------------------------------------
 def selftest() -> None:
     """Exit-2 guards for the harness's own decoders."""
     # FCS examples of Core Vol 3 Part A 3.3.5: I-frame (FCS 0x6138) and RR S-frame (FCS 0x14D4) on CID 0x0040
@@ -920,12 +1478,25 @@ def run(ctx) -> None:
         run_case(ctx, case)
     ctx.extra['setup_grid_pairs'] = len(grid)
     ctx.hyp('xfer', lambda c: run_case(ctx, c), case_strategy(), max_examples=ctx.n(600, 40000))
+    # enumerated extension families: small, so every shard runs them (their floors hold per shard)
+    for family in (skew_cases(ctx.quick), lazy_cases(ctx.quick), rush_cases(ctx.quick)):
+        for case in family:
+            if ctx.out_of_time():
+                ctx.label('budget_hit:ext_grid')
+                break
+            run_case(ctx, case)
+    ctx.hyp('ext', lambda c: run_case(ctx, c), ext_strategy(), max_examples=ctx.n(280, 16000))
     for label, n in (
         ('mode:EE', 100), ('mode:BB', 30), ('mode_mismatch', 20), ('carrier:classic', 50), ('carrier:le', 50),
         ('fcs_requested', 50), ('fcs_on_wire', 30), ('segmented', 50), ('window_lt_segments', 40),
         ('txseq_wrapped', 20), ('sdu_over_64_segments', 5), ('delayed', 50), ('bidirectional', 30),
         ('echo_from_sink', 10), ('round_trip_exceeds_retransmission_timeout', 5), ('window_filled', 30),
         ('fcs_option_unsupported', 20), ('write_right_after_create', 20), ('setup:open', 300), ('setup:closed', 50),
+        # extension families
+        ('cid_asymmetric', 60), ('cid_reused', 15), ('lazy_ack', 45), ('cumulative_ack', 40),
+        ('cumulative_ack_across_wrap', 15), ('cumulative_ack_of_whole_window', 15), ('bg:open', 35), ('bg_traffic', 35),
+        ('bg:opened_with_main', 8), ('two_ertm_channels', 20), ('history:opened_used_closed', 20),
+        ('history:setup_closed', 20), ('history:next_setup_right_after_failure', 30),
     ):
         ctx.floor(label, n if ctx.nshards == 1 else max(1, n // 4))
 
